@@ -10,9 +10,14 @@ import (
 	"fmt"
 	"math/rand"
 	"os"
+	"runtime"
 	"sort"
+	"strings"
+	"sync/atomic"
 	"testing"
 	"time"
+
+	"google.golang.org/grpc/attributes"
 
 	"google.golang.org/grpc/balancer"
 	pfinternal "google.golang.org/grpc/balancer/pickfirst/internal"
@@ -21,8 +26,38 @@ import (
 	"google.golang.org/grpc/resolver"
 )
 
-// c34Universe: address id (1-based) -> address string; families 4,6,4,0,6,0,4 (PickFirstMC.Fam7).
-var c34Universe = []string{"10.0.0.1:80", "[2001:db8::2]:80", "10.0.0.3:80", "host4.example:80", "[2001:db8::5]:80", "noport6", "[::ffff:10.0.0.7]:80"}
+// c34Universe: address id (1-based) -> address string; families 4,6,4,0,6,0,4,4 (PickFirstTrace.Fam8).
+// Address 8 has the Addr string of address 1 but different Attributes: it is a different address
+// (Attributes are part of an address's identity, BalancerAttributes and Metadata are not).
+var c34Universe = []string{"10.0.0.1:80", "[2001:db8::2]:80", "10.0.0.3:80", "host4.example:80", "[2001:db8::5]:80", "noport6", "[::ffff:10.0.0.7]:80", "10.0.0.1:80"}
+
+type c34AttrKey struct{}
+
+// c34Addr builds address id with variant v of the fields that are not part of its identity:
+// bit 0 = BalancerAttributes set, bit 1 = Metadata set, bits 2.. = value.
+func c34Addr(id, v int) resolver.Address {
+	a := resolver.Address{Addr: c34Universe[id-1]}
+	if id == 8 {
+		a.Attributes = attributes.New(c34AttrKey{}, "variant-8")
+	}
+	if v&1 != 0 {
+		a.BalancerAttributes = attributes.New(c34AttrKey{}, v)
+	}
+	if v&2 != 0 {
+		a.Metadata = v
+	}
+	return a
+}
+
+func c34AddrIDOf(a resolver.Address) int {
+	if a.Attributes != nil {
+		if a.Addr == c34Universe[7] {
+			return 8
+		}
+		return 0
+	}
+	return c34AddrID(a.Addr)
+}
 
 func c34AddrID(a string) int {
 	for i, s := range c34Universe {
@@ -37,11 +72,16 @@ type c34Timer struct {
 	f         func()
 	cancelled bool
 	fired     bool
+	cancelSeq int64 // c34Seq value when the policy cancelled the timer
+	doneSeq   int64 // c34Seq value when the callback returned (race step only)
 }
+
+var c34Seq atomic.Int64
 
 type c34Step struct {
 	A   string `json:"a"`
 	L   []int  `json:"l"`
+	V   []int  `json:"v"` // per address: variant of BalancerAttributes / Metadata (not part of the identity)
 	H   bool   `json:"h"`
 	Sc  int    `json:"sc"`
 	S   string `json:"s"`
@@ -66,7 +106,12 @@ func c34New() *c34Env {
 	pfinternal.TimeAfterFunc = func(_ time.Duration, f func()) func() {
 		t := &c34Timer{f: f}
 		e.timers = append(e.timers, t)
-		return func() { t.cancelled = true }
+		return func() {
+			t.cancelled = true
+			if t.cancelSeq == 0 {
+				t.cancelSeq = c34Seq.Add(1)
+			}
+		}
 	}
 	e.b = pickfirstBuilder{}.Build(e.cc, balancer.BuildOptions{})
 	return e
@@ -81,6 +126,68 @@ func (e *c34Env) armed() *c34Timer {
 	return nil
 }
 
+// staleTimer returns the most recent timer that was cancelled before its callback ran.
+func (e *c34Env) staleTimer() *c34Timer {
+	for i := len(e.timers) - 1; i >= 0; i-- {
+		if t := e.timers[i]; t.cancelled && !t.fired {
+			return t
+		}
+	}
+	return nil
+}
+
+// c34WaitBlocked waits until goroutine *gid is parked in sync.Mutex.Lock.
+func c34WaitBlocked(gid *atomic.Int64) bool {
+	buf := make([]byte, 1<<20)
+	for i := 0; i < 200000; i++ {
+		if g := gid.Load(); g != 0 {
+			n := runtime.Stack(buf, true)
+			if strings.Contains(string(buf[:n]), fmt.Sprintf("goroutine %d [sync.Mutex.Lock", g)) {
+				return true
+			}
+		}
+		if i < 1000 {
+			runtime.Gosched()
+		} else {
+			time.Sleep(20 * time.Microsecond)
+		}
+	}
+	return false
+}
+
+// raceReadyStale reproduces the interleaving "the happy-eyeballs timer expires while the READY
+// update that cancels it is being processed": with the policy's mutex held by the driver, the READY
+// update is queued on the mutex first, the timer callback second; then the mutex is released.
+// Returns "stale" if the READY update ran first and cancelled the timer before the callback
+// finished (verified by sequence numbers), "order" otherwise.
+func (e *c34Env) raceReadyStale(sc *lbtest.RecSC, t *c34Timer) string {
+	pb := e.b.(*pickfirstBalancer)
+	var g1, g2 atomic.Int64
+	done := make(chan struct{}, 2)
+	pb.mu.Lock()
+	go func() {
+		g2.Store(vlib.Goid())
+		sc.Listener(balancer.SubConnState{ConnectivityState: lbtest.StateOf("READY")})
+		done <- struct{}{}
+	}()
+	ok2 := c34WaitBlocked(&g2)
+	t.fired = true
+	go func() {
+		g1.Store(vlib.Goid())
+		t.f()
+		t.doneSeq = c34Seq.Add(1)
+		done <- struct{}{}
+	}()
+	ok1 := c34WaitBlocked(&g1)
+	pb.mu.Unlock()
+	<-done
+	<-done
+	if ok1 && ok2 && t.cancelSeq != 0 && t.cancelSeq < t.doneSeq {
+		return "stale"
+	}
+	return "order"
+}
+
 // obs drains the calls of this step and probes the latest picker.
 func (e *c34Env) obs() map[string]any {
 	calls := [][]any{}
@@ -88,8 +195,8 @@ func (e *c34Env) obs() map[string]any {
 		switch ev.Kind {
 		case "newsc":
 			id := 0
-			if len(ev.Addrs) == 1 {
-				id = c34AddrID(ev.Addrs[0])
+			if scs := e.cc.SubConns(); len(ev.Addrs) == 1 && ev.SC <= len(scs) && len(scs[ev.SC-1].Addrs) == 1 {
+				id = c34AddrIDOf(scs[ev.SC-1].Addrs[0])
 			}
 			calls = append(calls, []any{"newsc", id})
 			e.raw = append(e.raw, "IDLE")
@@ -155,8 +262,12 @@ func (e *c34Env) apply(st c34Step, tr *vlib.Trace) {
 	switch st.A {
 	case "upd":
 		addrs := make([]resolver.Address, len(st.L))
+		vs := make([]int, len(st.L))
 		for i, id := range st.L {
-			addrs[i] = resolver.Address{Addr: c34Universe[id-1]}
+			if i < len(st.V) {
+				vs[i] = st.V[i]
+			}
+			addrs[i] = c34Addr(id, vs[i])
 		}
 		rs := resolver.State{Addresses: addrs}
 		if st.E {
@@ -175,7 +286,7 @@ func (e *c34Env) apply(st c34Step, tr *vlib.Trace) {
 		if l == nil {
 			l = []int{}
 		}
-		tr.Emit(map[string]any{"ev": "upd", "l": l, "h": st.H, "obs": e.obs()})
+		tr.Emit(map[string]any{"ev": "upd", "l": l, "v": vs, "h": st.H, "obs": e.obs()})
 	case "reserr":
 		e.b.ResolverError(errors.New("verif resolver error"))
 		tr.Emit(map[string]any{"ev": "reserr", "obs": e.obs()})
@@ -199,6 +310,30 @@ func (e *c34Env) apply(st c34Step, tr *vlib.Trace) {
 		t.fired = true
 		t.f()
 		tr.Emit(map[string]any{"ev": "timer", "obs": e.obs()})
+	case "stale":
+		// a cancelled callback that runs late (after the event that cancelled it was fully processed)
+		t := e.staleTimer()
+		if t == nil {
+			skip()
+			return
+		}
+		t.fired = true
+		t.f()
+		tr.Emit(map[string]any{"ev": "stale", "obs": e.obs()})
+	case "scstale":
+		// READY for a live sub-connection racing with the expiry of the armed timer
+		t := e.armed()
+		if t == nil || !e.legalSc(st.Sc, "READY") || e.cc.SubConns()[st.Sc-1].IsShut() {
+			skip()
+			return
+		}
+		sc := e.cc.SubConns()[st.Sc-1]
+		e.raw[st.Sc-1] = "READY"
+		if r := e.raceReadyStale(sc, t); r != "stale" {
+			tr.Emit(map[string]any{"ev": "raceorder", "r": r})
+			return
+		}
+		tr.Emit(map[string]any{"ev": "scstale", "sc": st.Sc, "s": "READY", "obs": e.obs()})
 	case "sc":
 		if !e.legalSc(st.Sc, st.S) {
 			skip()
@@ -242,7 +377,14 @@ func c34Run(steps []c34Step, tr *vlib.Trace) {
 		}
 	}()
 	e := c34New()
-	for _, st := range steps {
+	for k := 0; k < len(steps); k++ {
+		st := steps[k]
+		if st.A == "sc" && st.S == "READY" && k+1 < len(steps) && steps[k+1].A == "stale" && e.armed() != nil &&
+			e.legalSc(st.Sc, "READY") && !e.cc.SubConns()[st.Sc-1].IsShut() {
+			e.apply(c34Step{A: "scstale", Sc: st.Sc}, tr)
+			k++
+			continue
+		}
 		e.apply(st, tr)
 	}
 	e.b.Close()
@@ -302,10 +444,22 @@ func TestVerifC34Random(t *testing.T) {
 			}()
 			e := c34New()
 			nA := 1 + rng.Intn(len(c34Universe))
+			if rng.Intn(3) == 0 {
+				nA = 1 + rng.Intn(2) // short lists: the last address is reached often
+			}
 			health := rng.Intn(3) == 0
 			pFail := []int{20, 50, 85}[rng.Intn(3)] // how often a connection attempt fails
 			endp := rng.Intn(2) == 0
 			n := 10 + rng.Intn(50)
+			randV := func(n int) []int {
+				v := make([]int, n)
+				for i := range v {
+					if rng.Intn(3) == 0 {
+						v[i] = 1 + rng.Intn(11)
+					}
+				}
+				return v
+			}
 			randList := func() []int {
 				m := rng.Intn(6)
 				if m == 0 && rng.Intn(3) != 0 {
@@ -317,7 +471,8 @@ func TestVerifC34Random(t *testing.T) {
 				}
 				return l
 			}
-			e.apply(c34Step{A: "upd", L: randList(), H: health, E: endp}, tr)
+			l0 := randList()
+			e.apply(c34Step{A: "upd", L: l0, V: randV(len(l0)), H: health, E: endp}, tr)
 			for k := 0; k < n && len(e.raw) < 150; k++ {
 				x := rng.Intn(100)
 				switch {
@@ -326,12 +481,21 @@ func TestVerifC34Random(t *testing.T) {
 					if rng.Intn(8) == 0 {
 						h = !h
 					}
-					e.apply(c34Step{A: "upd", L: randList(), H: h, E: endp}, tr)
+					l := randList()
+					if rng.Intn(3) == 0 && len(l0) > 0 {
+						l = l0 // re-send the previous list (sub-connections are re-used) with other variants
+					}
+					l0 = l
+					e.apply(c34Step{A: "upd", L: l, V: randV(len(l)), H: h, E: endp}, tr)
 				case x < 11:
 					e.apply(c34Step{A: "reserr"}, tr)
-				case x < 22:
+				case x < 20:
 					if e.armed() != nil {
 						e.apply(c34Step{A: "timer"}, tr)
+					}
+				case x < 22:
+					if e.staleTimer() != nil {
+						e.apply(c34Step{A: "stale"}, tr)
 					}
 				case x < 30:
 					if e.state == "IDLE" || rng.Intn(4) == 0 {
@@ -386,7 +550,11 @@ func TestVerifC34Random(t *testing.T) {
 					}
 					if len(mvs) > 0 {
 						m := mvs[rng.Intn(len(mvs))]
-						e.apply(c34Step{A: "sc", Sc: m.sc, S: m.s}, tr)
+						if m.s == "READY" && e.armed() != nil && !scs[m.sc-1].IsShut() && rng.Intn(2) == 0 {
+							e.apply(c34Step{A: "scstale", Sc: m.sc}, tr)
+						} else {
+							e.apply(c34Step{A: "sc", Sc: m.sc, S: m.s}, tr)
+						}
 					}
 				}
 			}
@@ -405,18 +573,18 @@ func TestVerifC34Preprocess(t *testing.T) {
 	}
 	defer tr.Close()
 	maxLen := vlib.EnvInt("VERIF_N", 4)
-	nU := vlib.EnvInt("VERIF_UNIVERSE", len(c34Universe))
+	nU := vlib.EnvInt("VERIF_UNIVERSE", 7)
 	tr.Emit(map[string]any{"ev": "reset"})
 	var rec func(l []int)
 	rec = func(l []int) {
 		addrs := make([]resolver.Address, len(l))
 		for i, id := range l {
-			addrs[i] = resolver.Address{Addr: c34Universe[id-1]}
+			addrs[i] = c34Addr(id, 0)
 		}
 		out := interleaveAddresses(deDupAddresses(addrs))
 		o := make([]int, len(out))
 		for i, a := range out {
-			o[i] = c34AddrID(a.Addr)
+			o[i] = c34AddrIDOf(a)
 		}
 		tr.Emit(map[string]any{"ev": "pre", "in": append([]int{}, l...), "out": o})
 		if len(l) == maxLen {
